@@ -63,7 +63,7 @@ def el(lo=-1.0, hi=1.0):
 
 
 def real(shape, lo=-1.0, hi=1.0):
-    return hnp.arrays(np.float64, shape, elements=el(lo, hi))
+    return hnp.arrays(np.float64, shape, elements=el(lo, hi), fill=st.nothing())
 
 
 @st.composite
@@ -129,7 +129,15 @@ def trial_params(draw, kind, norb, nelec, orthonormal=None):
     if kind == "uhf":
         return {"mo_coeff": [draw(orbitals(norb, na, orthonormal)), draw(orbitals(norb, nb, orthonormal))]}
     if kind == "ghf":
-        return {"mo_coeff": draw(orbitals(2 * norb, na + nb, orthonormal))}
+        base = np.zeros((2 * norb, na + nb))
+        base[:norb, :na] = np.eye(norb, na)
+        base[norb:, na:] = np.eye(norb, nb)
+        C = base + draw(real((2 * norb, na + nb))) * draw(st.sampled_from([0.0, 0.3, 0.7]))
+        if np.linalg.svd(C, compute_uv=False)[-1] < 1e-3:
+            C = base
+        if orthonormal is None:
+            orthonormal = draw(st.booleans())
+        return {"mo_coeff": orthonormalize(C) if orthonormal else C}
     if kind == "noci":
         nd = draw(st.integers(1, 3))
         ci = draw(real((nd,))) + np.where(np.arange(nd) == 0, 1.5, 0.0)
@@ -169,7 +177,16 @@ def trial_params(draw, kind, norb, nelec, orthonormal=None):
         }
     if kind == "GCISD":
         N, M = na + nb, 2 * norb
-        C = draw(orthogonal(M)) if draw(st.booleans()) else np.eye(M)
+        # spin-orbital basis: [up occupied, down occupied, up virtual, down virtual] of two orthogonal spatial bases, then a
+        # (possibly strong) spin-mixing rotation; keeps UHF-type walkers able to overlap with the reference
+        Ua, Ub = (draw(orthogonal(norb)), draw(orthogonal(norb))) if draw(st.booleans()) else (np.eye(norb), np.eye(norb))
+        base = np.zeros((M, M))
+        base[:norb, :norb] = Ua
+        base[norb:, norb:] = Ub
+        order = list(range(na)) + list(range(norb, norb + nb)) + list(range(na, norb)) + list(range(norb + nb, M))
+        mixamp = draw(st.sampled_from([0.0, 0.15, 0.5]))
+        mix = orthonormalize(np.eye(M) + mixamp * draw(real((M, M)))) if mixamp else np.eye(M)
+        C = base[:, order] @ mix
         return {"ci1": draw(real((N, M - N))) * amp, "ci2": _antisym(draw(real((N, M - N, N, M - N)))) * amp, "mo_coeff": C}
     raise ValueError(kind)
 
@@ -268,6 +285,16 @@ def reference_block_cond(kind, norb, nelec, params, up, dn):
             ia = [i for i, o in enumerate(d0[0]) if o]
             ib = [i for i, o in enumerate(d0[1]) if o]
             return max(_amp(up, ia), _amp(dn, ib))
+        if kind == "noci":
+            # every determinant of the expansion gets its own green's function inv(D_k^T W): a determinant (nearly) orthogonal
+            # to the walker is a removable singularity of the formula
+            worst = 1.0
+            for Dk_u, Dk_d in zip(np.asarray(params["dets_up"]), np.asarray(params["dets_dn"])):
+                if na:
+                    worst = max(worst, float(np.linalg.cond(Dk_u[:, :na].T @ up)))
+                if nb:
+                    worst = max(worst, float(np.linalg.cond(Dk_d[:, :nb].T @ dn)))
+            return worst
     except np.linalg.LinAlgError:
         return float("inf")
     return 1.0
@@ -276,16 +303,49 @@ def reference_block_cond(kind, norb, nelec, params, up, dn):
 # ------------------------------------------------------------------------------------------------
 # walkers and Hamiltonians
 # ------------------------------------------------------------------------------------------------
+def reference_frame(kind, norb, nelec, params):
+    """Orbitals (norb x n_up, norb x n_dn) of the trial's reference determinant in the working basis; walkers built as
+    frame + noise keep the block that Wick-type formulas invert (and the overlap itself) well conditioned."""
+    na, nb = nelec
+    Ru, Rd = np.eye(norb, na), np.eye(norb, nb)
+    try:
+        if kind == "rhf":
+            Ru, Rd = np.asarray(params["mo_coeff"])[:, :na], np.asarray(params["mo_coeff"])[:, :nb]
+        elif kind == "uhf":
+            Ru, Rd = np.asarray(params["mo_coeff"][0]), np.asarray(params["mo_coeff"][1])
+        elif kind == "noci":
+            Ru, Rd = np.asarray(params["dets_up"])[0][:, :na], np.asarray(params["dets_dn"])[0][:, :nb]
+        elif kind == "multislater":
+            d0 = params["dets"][0]
+            Ru = np.eye(norb)[:, [i for i, o in enumerate(d0[0]) if o]]
+            Rd = np.eye(norb)[:, [i for i, o in enumerate(d0[1]) if o]]
+        elif kind in ("ucisd", "UCISD"):
+            Rd = np.asarray(params["moB"])[:, :nb]
+        elif kind in ("ghf", "GCISD"):
+            C = np.asarray(params["mo_coeff"])[:, : na + nb]
+            # best collinear approximation: leading left singular vectors of the up / down blocks
+            Ru = np.linalg.svd(C[:norb], full_matrices=False)[0][:, :na]
+            Rd = np.linalg.svd(C[norb:], full_matrices=False)[0][:, :nb]
+    except Exception:
+        pass
+    return Ru.reshape(norb, na), Rd.reshape(norb, nb)
+
+
 @st.composite
-def walker(draw, norb, nelec, restricted=False):
-    """Complex, non-orthonormal walker. Variants: generic / near the aufbau block / column-scaled."""
+def walker(draw, norb, nelec, restricted=False, frame=None):
+    """Complex, non-orthonormal walker. Variants: generic / near the trial's reference determinant / column-scaled."""
     na, nb = nelec
     variant = draw(st.sampled_from(["generic", "near-ref", "near-ref", "scaled"]))
     up = draw(cplx((norb, na)))
     dn = up[:, :nb].copy() if restricted else draw(cplx((norb, nb)))
+    Ru, Rd = frame if frame is not None else (np.eye(norb, na), np.eye(norb, nb))
+    if restricted:
+        # one matrix serves both spins: keep the rows of both references well conditioned
+        Ru = Ru + 0.7 * np.pad(Rd, ((0, 0), (0, na - nb))) if not np.allclose(Ru[:, :nb], Rd) else Ru
+        Rd = Ru[:, :nb]
     if variant != "generic":
-        up = 0.6 * up + np.eye(norb, na)
-        dn = 0.6 * dn + np.eye(norb, nb)
+        up = 0.6 * up + Ru
+        dn = 0.6 * dn + Rd
     if variant == "scaled":
         su = np.array([10.0 ** draw(st.integers(-2, 2)) for _ in range(na)])
         up = up * su[None, :]
